@@ -148,12 +148,12 @@ def gen(seed: int, tier: str, idx=None):
     if rng0.random() < 0.3:
         g.emit({"op": "add_table", "d": 0, "s": 0, "rows": rng0.randint(1, 6), "cols": rng0.randint(1, 6), "hr": 1, "hc": 0})
     steps = rng0.randint(5, 30 if tier == "thorough" else 20)
-    weights = {"add_style": 4, "set_style": 8, "border": 12, "write": 4, "observe": 5, "save": 3, "restart": 3}
+    weights = {"add_style": 4, "set_style": 8, "mutate_style": 2.5, "border": 12, "write": 4, "observe": 5, "save": 3, "restart": 3}
     arm = rng0.choice(["both", "both", "styles", "borders"])
     if arm == "styles":
         weights["border"] = 0
     if arm == "borders":
-        weights["add_style"] = weights["set_style"] = 0
+        weights["add_style"] = weights["set_style"] = weights["mutate_style"] = 0
     names, wts = list(weights), list(weights.values())
     if arm != "borders":
         g.emit({"op": "add_style", "d": 0, "attrs": gen_attrs(rng), "name": rng.choice([None, "Red Text", "S1"])})
@@ -176,6 +176,14 @@ def gen(seed: int, tier: str, idx=None):
                     g.emit({"op": "set_style", "d": 0, "s": 0, "t": t, "r": r0, "c": (c0 + 1) % tm.ncols, "style": len(names_now) - 1, "via": "set"})
             else:
                 g.emit({"op": "add_style", "d": 0, "attrs": gen_attrs(rng), "name": rng.choice([None, None, "Bold " + str(rng.randrange(4)), "Ünï " + str(rng.randrange(3))])})
+        elif kind == "mutate_style":
+            if m.styles:
+                var = gen_variant(rng, {})
+                k = next(iter(var)) if var else "bold"
+                val = var.get(k, True)
+                g.emit({"op": "mutate_style", "d": 0, "style": rng.randrange(12), "attr": k, "value": list(val) if isinstance(val, tuple) else val})
+                if rng.random() < 0.5:
+                    g.emit({"op": "save", "d": 0, "slot": rng.choice(ALL_SLOTS)})
         elif kind == "set_style":
             o = {"op": "set_style", "d": 0, "s": 0, "t": t, "r": g.index(tm.nrows), "c": g.index(tm.ncols), "style": rng.randrange(12),
                  "via": rng.choice(["set", "set", "name", "write"]), "nota": rng.choice(["rc", "a1"])}
